@@ -258,6 +258,16 @@ func init() {
 			}
 			return d, true
 		},
+		// vPtrKey(p): a 64-bit identity of the addressed cell: object id << 32 + cell offset (symbolic offsets included)
+		"vPtrKey": func(p *Path, fn *ssa.Function, args []Value) (Value, bool) {
+			a := p.resolve(args[0].(Ptr))
+			ts := p.ts()
+			k := ts.Const(uint64(uint32(int32(a.Obj)))<<32+uint64(uint32(a.Off)), 64)
+			if a.Sym != nil {
+				k = ts.Add(k, a.Sym)
+			}
+			return k, true
+		},
 		// vSameObj(a, b unsafe-ish pointers) bool
 		"vObjID": func(p *Path, fn *ssa.Function, args []Value) (Value, bool) {
 			switch a := args[0].(type) {
